@@ -784,8 +784,39 @@ next:
 		}
 		out = append(out, g)
 	}
+	// boolean conditions that are not comparisons (a predicate call, a flag)
+	beforeB := map[string]bool{}
+	for f := range FactsOf(fn).At(from) {
+		if _, ok := relsOf(f); !ok && len(predicateRels(f)) == 0 {
+			beforeB[boolFactText(p, f)] = true
+		}
+	}
+nextB:
+	for f := range FactsOf(fn).At(to) {
+		if _, ok := relsOf(f); ok || len(predicateRels(f)) > 0 {
+			continue
+		}
+		g := boolFactText(p, f)
+		if beforeB[g] {
+			continue
+		}
+		for _, a := range allowed {
+			if strings.Contains(g, a) {
+				continue nextB
+			}
+		}
+		out = append(out, g)
+	}
 	sort.Strings(out)
 	return dedup(out)
+}
+
+func boolFactText(p *Program, f fact) string {
+	s := p.RenderShort(f.cond)
+	if !f.truth {
+		s = "!" + s
+	}
+	return s
 }
 
 func guardsAt(p *Program, fn *ssa.Function, b *ssa.BasicBlock) map[string]bool {
